@@ -15,14 +15,18 @@ def _on_alarm(signum, frame):
 
 @contextlib.contextmanager
 def watchdog(seconds):
-    """Raise CaseTimeout inside the block if it runs longer than `seconds`."""
-    old = signal.signal(signal.SIGALRM, _on_alarm)
-    signal.setitimer(signal.ITIMER_REAL, seconds)
+    """Raise CaseTimeout inside the block if it runs longer than `seconds` (nestable)."""
+    import time
+    old_handler = signal.signal(signal.SIGALRM, _on_alarm)
+    t0 = time.time()
+    old_left, _ = signal.setitimer(signal.ITIMER_REAL, seconds)
     try:
         yield
     finally:
         signal.setitimer(signal.ITIMER_REAL, 0)
-        signal.signal(signal.SIGALRM, old)
+        signal.signal(signal.SIGALRM, old_handler)
+        if old_left > 0:
+            signal.setitimer(signal.ITIMER_REAL, max(old_left - (time.time() - t0), 0.01))
 
 
 def setup_env():
